@@ -141,7 +141,7 @@ theorem parsePart_plain_fg (T : Tables) (a : Attrs) (w : Text) (h : plainWordB w
     k16⟩, k17⟩, k18⟩ := h
   unfold parsePart
   simp only [k1, k2, k3, k4, k5, k6, k7, k8, k9, k10, k11, k12, k13, k14, k15, k16, k17, k18,
-    h1, h2, Bool.false_eq_true, if_false, Bool.or_self]
+    h1, h2, Bool.false_eq_true, if_false]
 
 theorem parsePart_plain_bg (T : Tables) (a : Attrs) (w : Text) (h : plainWordB w = true)
     (h1 : startsWith "bg:".toList w = true) :
@@ -152,7 +152,7 @@ theorem parsePart_plain_bg (T : Tables) (a : Attrs) (w : Text) (h : plainWordB w
     k16⟩, k17⟩, k18⟩ := h
   unfold parsePart
   simp only [k1, k2, k3, k4, k5, k6, k7, k8, k9, k10, k11, k12, k13, k14, k15, k16, k17, k18,
-    h1, Bool.false_eq_true, if_false, if_true, Bool.or_self]
+    h1, Bool.false_eq_true, if_false, if_true]
 end Ptk.C19
 
 namespace Ptk.C19
